@@ -39,7 +39,8 @@ type World struct {
 	byObj  map[*types.Func]*Func
 	byLit  map[*ast.FuncLit]*Func
 	// call graph caches
-	calleesMemo map[*Func][]*CallSite
+	calleesMemo  map[*Func][]*CallSite
+	sentinelMemo map[*types.Var]bool
 }
 
 type Func struct {
